@@ -521,6 +521,19 @@ impl BufferedFileWriter {
 	}
 }
 
+impl BufferedFileWriter {
+	/// Drops whatever is still buffered WITHOUT writing it (a `BufWriter` would flush
+	/// on drop). Used after a failed write: the buffer then holds (part of) a record
+	/// whose append was reported as failed and must not reach the file later.
+	pub(crate) fn abandon_buffer(&mut self) {
+		if let Ok(file) = self.writer.get_ref().try_clone() {
+			let old = std::mem::replace(&mut self.writer, BufWriter::with_capacity(0, file));
+			let _ = old.into_parts();
+		}
+		self.pending_sync = false;
+	}
+}
+
 impl WritableFile for BufferedFileWriter {
 	fn append(&mut self, data: &[u8]) -> Result<()> {
 		self.writer.write_all(data)?;
